@@ -39,6 +39,9 @@ Multi == <<
   "(trace! (try (throw \"boom\") (catch e (str e \"!\"))))",
   "(trace! (try (let [q 1] (+ q \"s\")) (catch e (str e))))" >>
 
+CtxForms == C01CtxForms
+G == C01G
+
 ASSUME InitRegisters
 ASSUME SetContext(CtxForms)
 ASSUME TLCSet(3, G)
